@@ -171,6 +171,30 @@ CHECKS["C12"] = dict(
               "space), replay with concrete options",
     design="2/C12")
 
+CHECKS["C14"] = dict(
+    level="other",
+    text="The real initialize/loop/post_loop hooks of InterpolateFunction, "
+         "InterpolateSPH, SPLASHInterpolateProperty(Normalized) and "
+         "SPHFirstOrderApproximation(PreStep) run in the documented order "
+         "for one target point and 0-2 source particles from 1-2 arrays, "
+         "starting from an arbitrary pre-state and evaluated twice; z3 "
+         "decides: result equals the documented (weighted) sum / mean, "
+         "constant field reproduced, value between min and max, zero when "
+         "all weights vanish, re-evaluation gives the same value, the "
+         "order1 moment matrix and right-hand side equal their documented "
+         "sums, a linear field gives b = M.[p, grad p], and post_loop solves "
+         "M x = b (dims 1, 2). Equation level only.",
+    note="kernel abstracted (W(r,h) >= 0, gradient = G(r,h) xij); hooks "
+         "driven in the documented order by the harness (C03's subject); "
+         "Interpolator's glue code, grids and periodic domains are outside; "
+         "3-D linear solve outside; counter-examples replay through the "
+         "real compiled Interpolator",
+    technique="symbolic execution of the python hook methods on z3 Real "
+              "proxies from an arbitrary pre-state, per-path SMT query "
+              "against the documented sums, replay on the compiled "
+              "Interpolator",
+    design="2/C14")
+
 NOT_APPLICABLE = {
     "C05": "whole-application runs of compiled OpenMP code compared across "
            "configurations up to summation order: no unit a solver can "
